@@ -302,7 +302,7 @@ theorem step_sim (c : Cfg) (H : DocHyp c) (st : List Bool) (s : IndSt) (ev : Eve
         simp only [wsBefore, wsEv, List.isEmpty_nil, ↓reduceIte, List.nil_append, runEvents, stepEvent, hl, ht, bind, Except.bind, pure, Except.pure, p2]
   | charactersRaw str =>
     simp only [stepEventI, bind, Except.bind, pure, Except.pure] at h
-    cases ht : wStr c.enc str with
+    cases ht : wRaw c.enc str with
     | error e => simp [ht] at h
     | ok t =>
       simp only [ht, Except.ok.injEq, Prod.mk.injEq] at h
